@@ -460,6 +460,41 @@ def h_arrays(ctx):
     ctx.outcome("nan=%d" % len(mask))
     ctx.nontrivial(len(mask) > 0)
 
+def h_climdiv(ctx):
+    """-C: a climatological value of exactly 0 makes obs/clim and fcst/clim non-finite at that case - it is dropped, for every input,
+    exactly as if the climatology were missing there"""
+    import verif.data
+    seed = core.seed()
+    inputs = dataset(seed)
+    K = gen.AInput("K", inputs[0].times, inputs[0].leads, inputs[0].locs)
+    K.fields["fcst"] = {pos: 0.5 + 0.25 * ((n_ * 3) % 7) for n_, pos in enumerate(K.positions())}
+    zeros = []
+    for pos in K.positions():
+        if ctx.choose_bool("clim-zero:%r" % (pos,)):
+            K.fields["fcst"][pos] = 0.0
+            zeros.append(pos)
+    Kdel = K.copy()
+    for pos in zeros:
+        del Kdel.fields["fcst"][pos]
+    ref = RD.RefData(inputs, clim=K, clim_type="divide")
+    kind, data, site, out = CD.make_data(inputs, aclim=K, clim_type="divide")
+    kindd, datad, sited, _ = CD.make_data(inputs, aclim=Kdel, clim_type="divide")
+    if kind != "ok" or kindd != "ok":
+        ctx.fail("climdiv:data-%s:%s" % (kind if kind != "ok" else kindd, site or sited), stdout=out[-200:])
+        return
+    sig = CD.check_requests(ctx, data, ref, [["obs", "fcst"], ["fcst"], ["obs"]], AXES + ["all"], "climdiv")
+    got = all_scores(ctx, data, ref, "climdiv")
+    exp = all_scores(ctx, datad, RD.RefData(inputs, clim=Kdel, clim_type="divide"), "climdiv-deleted")
+    for key in exp:
+        if not same(exp[key], got[key]):
+            ctx.fail("climdiv:differs-from-the-score-with-the-cases-deleted:%s" % key[0], metric=key[0], axis=key[1], input=key[2], cases_deleted=exp[key], got=got[key],
+                     zero_climatology_at=[list(p) for p in zeros])
+    if zeros:
+        ctx.flag("zero-climatology")
+    ctx.observe((tuple(zeros), sig))
+    ctx.outcome("zeros=%d" % len(zeros))
+    ctx.nontrivial(len(zeros) > 0)
+
 
 def plan(tier):
     q = tier == "quick"
@@ -471,7 +506,8 @@ def plan(tier):
          ("nc-2", h_single, dict({"via": "nc", "marks": 2, "fields": ["fcst", "e0"] if q else ["obs", "fcst", "pit", "p1", "q0.1", "e0", "e1"]},
                                  **({"encs_first": ["nan", "masked", "fill", "-inf"]} if q else {}))),
          ("text-struct", h_struct, {"via": "text"}), ("nc-struct", h_struct, {"via": "nc"}),
-         ("arrays", h_arrays, {"lengths": [2, 3] if q else [2, 3, 4], "full_alphabet": not q})]
+         ("arrays", h_arrays, {"lengths": [2, 3] if q else [2, 3, 4], "full_alphabet": not q}),
+         ("clim-divide", h_climdiv, {})]
     return p
 
 
@@ -482,6 +518,13 @@ def run(tier, only=None):
             continue
         t0 = time.time()
         st = explore.explore(h, mode="full", params=params, repo_root=core.REPO, time_cap=(240 if tier == "quick" else 3000))
+        if name == "clim-divide":
+            st = explore.explore(h, mode="dev", k=(1 if tier == "quick" else 2), params=params, repo_root=core.REPO, time_cap=(240 if tier == "quick" else 3000))
+            subs.append(core.Sub.from_e1(name, st, bound="dev(%d) over the 8 cases at which the climatology is exactly 0, -C" % (1 if tier == "quick" else 2),
+                                         rule="one execution = the 2-input dataset divided by a climatology with zeros; requests vs the reference and all metrics vs the dataset "
+                                              "whose climatology is missing at those cases; non-trivial = at least one zero",
+                                         required_flags=("zero-climatology",), wall=time.time() - t0))
+            continue
         if name == "arrays":
             subs.append(core.Sub.from_e1(name, st, bound="all obs/fcst vector pairs of length %r over {0.5, 2, 3} (quick: {0.5, 3} beyond length 2) x every placement of at most two NaN" % (params["lengths"],),
                                          rule="one execution = one vector pair with NaN; 47 array-level metrics (22 deterministic, 25 contingency at threshold 1.5) must equal "
